@@ -11,7 +11,7 @@ import numpy as _np
 import z3
 
 from . import daskmodel, h5model
-from .core import SB, SInt, SV, Unsupported, fresh
+from .core import SB, SInt, SV, Unsupported, fresh  # noqa: F401
 from .daskmodel import DA, DASK, DArr
 from .shim import NP, SCIPY, SArr, _obj
 
@@ -31,6 +31,19 @@ def _has_darr(a, k):
     return False
 
 
+_CONCRETE_OK = {"maximum", "minimum", "abs", "absolute", "clip", "where", "mean", "var", "std", "min", "max", "amin", "amax", "argmin", "argmax", "any", "all", "sqrt", "square", "sign", "isfinite", "isnan", "logical_not", "logical_and", "logical_or", "invert"}
+
+
+def _anysym(x):
+    if isinstance(x, (SV, SB, SInt)):
+        return True
+    if isinstance(x, _np.ndarray):
+        return x.dtype == object
+    if isinstance(x, (list, tuple)):
+        return any(_anysym(y) for y in x)
+    return hasattr(x, "__sarr__")
+
+
 class NPProxy:
     """numpy as the analysed code sees it: the symbolic shim, with Dask-model dispatch
     (what ``__array_function__`` does for real Dask arrays)."""
@@ -42,6 +55,8 @@ class NPProxy:
             def g(*a, **k):
                 if _has_darr(a, k):
                     return getattr(DA, n)(*a, **k)
+                if n in _CONCRETE_OK and a and not any(_anysym(x) for x in a) and not any(_anysym(x) for x in k.values()):
+                    return getattr(_np, n)(*a, **k)  # nothing symbolic involved: NumPy itself
                 return f(*a, **k)
 
             g.__name__ = n
